@@ -109,3 +109,22 @@ Lemma number_codecs :
   (forall n, - 2 ^ 63 <= n <= 2 ^ 63 - 1 -> atoi (dec n) = Some n) /\
   (forall s, bytes s -> (length s <= 16)%nat -> hex_decode 0 (hex_of s) [] = Ok s).
 Proof. split; [exact atoi_dec|]. intros s B L. exact (hex_decode_hex_of s 0 [] B L). Qed.
+
+Lemma unhex_range : forall c d, unhex c = Some d -> 0 <= d < 16.
+Proof.
+  intros c d. unfold unhex.
+  destruct ((48 <=? c) && (c <=? 57)) eqn:A. { apply andb_true_iff in A. destruct A as (A1 & A2). apply Z.leb_le in A1. apply Z.leb_le in A2. intro H; inversion H; lia. }
+  destruct ((97 <=? c) && (c <=? 102)) eqn:B. { apply andb_true_iff in B. destruct B as (B1 & B2). apply Z.leb_le in B1. apply Z.leb_le in B2. intro H; inversion H; lia. }
+  destruct ((65 <=? c) && (c <=? 70)) eqn:C; [|discriminate]. apply andb_true_iff in C. destruct C as (C1 & C2). apply Z.leb_le in C1. apply Z.leb_le in C2. intro H; inversion H; lia.
+Qed.
+Lemma hex_decode_bytes : forall k s n acc b, (length s <= k)%nat -> bytes acc -> hex_decode n s acc = Ok b -> bytes b.
+Proof.
+  induction k; intros s n acc b L A H.
+  - destruct s; [|simpl in L; lia]. cbn [hex_decode] in H. inversion H; subst. apply Forall_rev. exact A.
+  - destruct s as [|p [|q t]]; cbn [hex_decode] in H.
+    + inversion H; subst. apply Forall_rev. exact A.
+    + destruct (unhex p); discriminate.
+    + destruct (unhex p) as [a|] eqn:Hp; [|discriminate]. destruct (unhex q) as [c|] eqn:Hq; [|discriminate].
+      destruct (Nat.leb 16 n); [discriminate|]. eapply IHk; [| |exact H]. { simpl in L. lia. }
+      constructor; auto. apply unhex_range in Hp. apply unhex_range in Hq. lia.
+Qed.
